@@ -572,3 +572,171 @@ class DatasetScalarOp(Contract):
 
     def canaries(self, S, case, env, result):
         yield "result-has-no-y-labels", S.n(result.axes["y"].values) == 0
+
+
+class DatasetReduce(Contract):
+    """ds.mean / sum / std / var / median(axis='x') on a Dataset a(x), b(x, y), c(y): for every variable that has x the Dataset
+    method makes exactly one call of the DimArray method of the same name with axis='x' (recorded by the harness; what it
+    returns is Reduce's contract, C08) and the result holds that call's result -- a scalar for a, an array over y for b --;
+    c is unchanged; the result is a Dataset over y alone that satisfies the shared-axes invariant, with y's labels unchanged;
+    the operand is untouched.  The real bodies of Dataset.__init__, align and _get_aligned_axes are executed.  [C14]"""
+    target = "dimarray.dataset:Dataset._apply_dimarray_axis"
+    props = ("C14",)
+    inlined = ("Dataset.to_dict", "Dataset.__init__", "align", "_get_aligned_axes", "_common_axis", "Axis.union", "Dataset.__setitem__ (own contract, C13)")
+    max_paths = 900
+
+    def cases(self, tier):
+        for op in ("mean", "sum", "std", "var", "median"):
+            for by in ("name", "position"):
+                if tier == "quick" and by == "position" and op != "mean":
+                    continue
+                yield {"name": "%s-axis_by_%s" % (op, by), "op": op, "by": by}
+
+    bound_names = ("ds.x.n", "ds.y.n")
+
+    def setup(self, S, case):
+        ds, labels = make_dataset(S, "a(x),b(x,y),c(y)")
+        S.assume(S.n(labels["x"]) >= 1, "something to reduce")
+        for ax in ds.axes:
+            S.tag(ax.values, "order", "unique")
+        return {"ds": ds, "labels": labels, "snap": snapshot_ds(S, ds), "calls": []}
+
+    def call(self, fn, env):
+        case, ds = env["case"], env["ds"]
+        cls = type(_var(ds, "a"))
+        owner = [k for k in cls.__mro__ if case["op"] in k.__dict__][0]
+        raw = owner.__dict__[case["op"]]              # the reductions are descriptors (_NumpyDesc), not plain functions
+
+        def recording(self_, *a, **k):
+            r = raw.__get__(self_, type(self_))(*a, **k)
+            env["calls"].append((self_, a, k, r))
+            return r
+        setattr(owner, case["op"], recording)
+        try:
+            return getattr(ds, case["op"])(axis="x" if case["by"] == "name" else 0)
+        finally:
+            setattr(owner, case["op"], raw)
+
+    def post(self, S, case, env, result):
+        ds, labels, snap = env["ds"], env["labels"], env["snap"]
+        Y = labels["y"]
+        ny = S.n(Y)
+        calls = env["calls"]
+        va, vb = snap["vars"]["a"], snap["vars"]["b"]
+        ok = len(calls) == 2 and calls[0][0] is va and calls[1][0] is vb and all(c[1] == () and c[2] == {"axis": "x"} for c in calls)
+        yield "one-call-of-the-dimarray-method-per-variable-that-has-x", ok
+        if not ok:
+            return
+        ra, rb = calls[0][3], calls[1][3]
+        yield "returns-a-new-dataset", type(result) is type(ds) and result is not ds
+        ok = sorted(dict.keys(result)) == ["a", "b", "c"] and [ax.name for ax in result.axes] == ["y"]
+        yield "same-variables-over-y-alone", ok
+        if not ok:
+            return
+        for c in ds_inv(S, result):
+            yield c
+        a, b, c = _var(result, "a"), _var(result, "b"), _var(result, "c")
+        Yr = result.axes["y"].values
+        yield "y-labels-unchanged", S.land(S.n(Yr) == ny, S.forall(0, ny, lambda j: S.implies(j < S.n(Yr), lambda: S.at(Yr, j) == S.at(Y, j))))
+        yield "a:holds-the-scalar-the-dimarray-method-returned", S.land(tuple(a.dims) == (), S.lnot(S.is_dimarray(ra)), S.same(S.at(a.values), ra))
+        yield "b:holds-the-array-the-dimarray-method-returned", S.land(tuple(b.dims) == ("y",), S.is_dimarray(rb), S.forall(0, ny, lambda j: S.same(S.at(b.values, j), S.at(rb.values, j))))
+        yield "c:variable-without-the-axis-unchanged", S.land(tuple(c.dims) == ("y",), S.n(c.values) == ny, S.forall(0, ny, lambda j: S.same(S.at(c.values, j), S.at(snap["data"]["c"], j))))
+        for cl in unchanged_ds(S, ds, snap):
+            yield ("operand:" + cl[0],) + tuple(cl[1:])
+
+    def canaries(self, S, case, env, result):
+        yield "result-has-no-y-labels", S.n(result.axes["y"].values) == 0
+
+
+
+def _second_dataset(S, labels, own_x=False):
+    """another Dataset a(x), b(x, y), c(y) with its own data, over the SAME y labels and (unless own_x) the same x labels"""
+    da = S.da
+    labs = dict(labels)
+    if own_x:
+        L = S.array1d("ds2.x", KIND["x"])
+        assume_order(S, L, "unique")
+        labs["x"] = L
+    ds = da.Dataset()
+    for key, dims in STATES["a(x),b(x,y),c(y)"]:
+        axes = [da.Axis(S.snapshot_array(labs[d]) if hasattr(S, "snapshot_array") else labs[d].copy(), d) for d in dims]
+        data = S.arraynd("ds2.%s.data" % key, "f", tuple(S.n(labs[d]) for d in dims))
+        ds[key] = da.DimArray(data, axes=axes)
+    return ds, labs
+
+
+class DatasetJoin(Contract):
+    """stack_ds([ds1, ds2], axis='k', keys=['u', 'v']) and concatenate_ds([ds1, ds2], axis='x') for two Datasets a(x), b(x, y),
+    c(y) with their own data: every variable of the result is what stack / concatenate (C12) give for that variable's pair --
+    the new dimension first, labelled by the keys, slice j holding dataset j's variable; respectively the x labels one after
+    the other and each variable's block j holding dataset j's cells --; concatenate_ds leaves the variable without x as it
+    is in the first dataset; the result satisfies the shared-axes invariant; the operands are untouched.  [C14]"""
+    target = "dimarray.dataset:stack_ds"
+    props = ("C14",)
+    inlined = ("_check_stack_args", "_check_stack_axis", "stack / concatenate (own contracts: Stack, Concatenate, C12)", "Dataset.__setitem__ (own contract, C13)")
+    max_paths = 900
+
+    def cases(self, tier):
+        yield {"name": "stack_ds", "op": "stack_ds"}
+        yield {"name": "concatenate_ds-by-name", "op": "concatenate_ds", "by": "name"}
+        yield {"name": "concatenate_ds-default-axis", "op": "concatenate_ds", "by": "default"}
+
+    bound_names = ("ds.x.n", "ds.y.n", "ds2.x.n")
+
+    def setup(self, S, case):
+        ds1, labels = make_dataset(S, "a(x),b(x,y),c(y)")
+        ds2, labels2 = _second_dataset(S, labels, own_x=case["op"] == "concatenate_ds")
+        return {"ds1": ds1, "ds2": ds2, "labels": labels, "labels2": labels2, "snap1": snapshot_ds(S, ds1), "snap2": snapshot_ds(S, ds2)}
+
+    def call(self, fn, env):
+        import importlib
+        mod = importlib.import_module("dimarray.dataset")
+        case = env["case"]
+        if case["op"] == "stack_ds":
+            return mod.stack_ds([env["ds1"], env["ds2"]], axis="k", keys=["u", "v"])
+        if case["by"] == "name":
+            return mod.concatenate_ds([env["ds1"], env["ds2"]], axis="x")
+        return mod.concatenate_ds([env["ds1"], env["ds2"]])
+
+    def post(self, S, case, env, result):
+        ds1, ds2, s1, s2 = env["ds1"], env["ds2"], env["snap1"], env["snap2"]
+        X, Y, X2 = env["labels"]["x"], env["labels"]["y"], env["labels2"]["x"]
+        nx, ny, nx2 = S.n(X), S.n(Y), S.n(X2)
+        yield "returns-a-new-dataset", type(result) is type(ds1) and result is not ds1 and result is not ds2
+        stack = case["op"] == "stack_ds"
+        ok = sorted(dict.keys(result)) == ["a", "b", "c"] and sorted(ax.name for ax in result.axes) == (["k", "x", "y"] if stack else ["x", "y"])
+        yield "same-variables;dimensions", ok
+        if not ok:
+            return
+        for c in ds_inv(S, result):
+            yield c
+        a, b, c = _var(result, "a"), _var(result, "b"), _var(result, "c")
+        d1, d2 = s1["data"], s2["data"]
+        Xr, Yr = result.axes["x"].values, result.axes["y"].values
+        yield "y-labels-unchanged", S.land(S.n(Yr) == ny, S.forall(0, ny, lambda j: S.implies(j < S.n(Yr), lambda: S.at(Yr, j) == S.at(Y, j))))
+        if stack:
+            K = result.axes["k"].values
+            yield "new-axis-labelled-by-the-keys", S.land(S.n(K) == 2, S.at(K, 0) == "u", S.at(K, 1) == "v")
+            yield "x-labels-unchanged", S.land(S.n(Xr) == nx, S.forall(0, nx, lambda i: S.implies(i < S.n(Xr), lambda: S.at(Xr, i) == S.at(X, i))))
+            yield "dims-of-the-variables", tuple(a.dims) == ("k", "x") and tuple(b.dims) == ("k", "x", "y") and tuple(c.dims) == ("k", "y")
+            for t, d in ((0, d1), (1, d2)):
+                yield "a:slice-%d-holds-dataset-%d" % (t, t), S.forall(0, nx, lambda i, d=d, t=t: S.same(S.at(a.values, t, i), S.at(d["a"], i)))
+                yield "b:slice-%d-holds-dataset-%d" % (t, t), S.forall_nd([nx, ny], lambda i, j, d=d, t=t: S.same(S.at(b.values, t, i, j), S.at(d["b"], i, j)))
+                yield "c:slice-%d-holds-dataset-%d" % (t, t), S.forall(0, ny, lambda j, d=d, t=t: S.same(S.at(c.values, t, j), S.at(d["c"], j)))
+        else:
+            yield "x-labels-one-after-the-other", S.land(S.n(Xr) == nx + nx2,
+                                                       S.forall(0, nx, lambda i: S.implies(i < S.n(Xr), lambda: S.at(Xr, i) == S.at(X, i))),
+                                                       S.forall(0, nx2, lambda i: S.implies(nx + i < S.n(Xr), lambda: S.at(Xr, nx + i) == S.at(X2, i))))
+            yield "dims-of-the-variables", tuple(a.dims) == ("x",) and tuple(b.dims) == ("x", "y") and tuple(c.dims) == ("y",)
+            yield "a:block-0", S.forall(0, nx, lambda i: S.same(S.at(a.values, i), S.at(d1["a"], i)))
+            yield "a:block-1", S.forall(0, nx2, lambda i: S.same(S.at(a.values, nx + i), S.at(d2["a"], i)))
+            yield "b:block-0", S.forall_nd([nx, ny], lambda i, j: S.same(S.at(b.values, i, j), S.at(d1["b"], i, j)))
+            yield "b:block-1", S.forall_nd([nx2, ny], lambda i, j: S.same(S.at(b.values, nx + i, j), S.at(d2["b"], i, j)))
+            yield "c:variable-without-the-axis-is-the-first-datasets", S.forall(0, ny, lambda j: S.same(S.at(c.values, j), S.at(d1["c"], j)))
+        for cl in unchanged_ds(S, ds1, s1):
+            yield ("operand-1:" + cl[0],) + tuple(cl[1:])
+        for cl in unchanged_ds(S, ds2, s2):
+            yield ("operand-2:" + cl[0],) + tuple(cl[1:])
+
+    def canaries(self, S, case, env, result):
+        yield "result-has-no-y-labels", S.n(result.axes["y"].values) == 0
